@@ -217,7 +217,7 @@ def cfg_coq(c):
     """c: effective configuration dict"""
     b = lambda k: 'true' if c.get(k) else 'false'
     cache = {'never': 0, 'metadata': 1, 'auto': 2, 'always': 3}[c.get('cache', 'auto')]
-    return '(mkCfg %s %s %s %s %s %s %d)' % (b('do_import'), b('no_open'), b('no_opendir'), b('writeback'), b('killpriv_v2'), b('xattr'), cache)
+    return '(mkCfg %s %s %s %s %s %s %d %s)' % (b('do_import'), b('no_open'), b('no_opendir'), b('writeback'), b('killpriv_v2'), b('xattr'), cache, b('inode_file_handles'))
 
 def effective_cfg(c, standalone=True):
     """what PassthroughFs::new + init make of the requested configuration (the harness offers exactly
